@@ -1108,6 +1108,55 @@ def generator_shell_is_transparent():
     return r.returncode != 0
 
 
+def probe_activated_while_a_generator_is_suspended_misses_its_later_events():
+    """C05 (what is left of the frame mechanism after the generator repair): a generator re-installs, when it is resumed, the collection
+    that was computed when it was first entered; a probe activated while it was suspended is not in it, so the events caused by the
+    resumed generator's body (a nested call) do not reach that probe although it is active."""
+    def h2(v):
+        y = v * 2
+        return y
+
+    def g5(n):
+        for i in range(n):
+            h2(i)
+            yield i
+
+    with probing("g5 > i", env={"g5": g5}):
+        gen = g5(3)
+        next(gen)
+        with probing("h2 > y", env={"h2": h2}) as p2:
+            ys = p2["y"].accum()
+            next(gen)  # calls h2(1) from the generator's body
+            h2(10)
+    print("events of the probe activated while the generator was suspended:", ys)
+    return ys != [2, 20]
+
+
+def overlay_left_while_a_generator_is_suspended_still_receives_its_events():
+    """C05 (same mechanism, other direction): an overlay whose with-block ended while a generator was suspended still receives the events of
+    that generator's body when it is resumed (a Probe is silent then -- it has an active period -- an Overlay is not)."""
+    from ptera import Overlay
+
+    @tooled
+    def h3(v):
+        y = v * 2
+        return y
+
+    @tooled
+    def g6(n):
+        for i in range(n):
+            h3(i)
+            yield i
+
+    with Overlay.tapping(ptera.select("h3 > y", env={"h3": h3})) as ys:
+        gen = g6(3)
+        next(gen)
+    seen_in_block = list(ys)
+    next(gen)
+    print("events of the overlay:", seen_in_block, "then, after its block ended:", ys[len(seen_in_block):])
+    return ys != seen_in_block
+
+
 # case -> properties (the scenario corpus of DESIGN 2.6: every case is replayed natively by the quick check of its properties)
 CASES = {
     "tuple_unpack_generator": ["C01"], "tuple_unpack_dict": ["C01"], "starred_target": ["C01"], "subscript_index_twice": ["C01"],
@@ -1125,7 +1174,8 @@ CASES = {
     "completion_error_leaves_probe_active": ["C17", "C05"], "overlay_on_tooled_function_keeps_its_events": ["C05"], "deactivation_inside_a_call_is_undone_at_its_exit": ["C05"],
     "probe_activated_inside_a_call_is_dropped": ["C05"],
     "same_name_constrained_in_two_frames": ["C12"], "bound_method_subselector_drops_record": ["C07"],
-    "private_names_in_method": ["C01"], "generator_shell_is_transparent": ["C09", "C05", "C01", "C06", "C02", "C07", "C03", "C17"], "probe_silenced_when_an_earlier_generator_finishes": ["C02", "C06"],
+    "private_names_in_method": ["C01"], "probe_activated_while_a_generator_is_suspended_misses_its_later_events": ["C05"],
+    "overlay_left_while_a_generator_is_suspended_still_receives_its_events": ["C05"], "generator_shell_is_transparent": ["C09", "C05", "C01", "C06", "C02", "C07", "C03", "C17"], "probe_silenced_when_an_earlier_generator_finishes": ["C02", "C06"],
     "suspended_generator_in_a_local_outlives_its_frame": ["C09"], "slice_bounds_evaluated_once": ["C01", "C02"], "match_statement_under_tooling": ["C01", "C10", "C02"], "provenance_follows_python_scoping": ["C10"], "augmented_attribute_store_is_a_binding": ["C04", "C02"],
     "stale_generator_answer_is_not_remembered": ["C05", "C07", "C02", "C09"],
     "hidden_temporaries_keep_generator_alive": ["C09"], "same_name_at_two_placements": ["C14"],
